@@ -17,6 +17,9 @@ use crate::{
 pub const TESTDATA: &str = "/repo/resources/testdata";
 pub const MAX_STEPS: usize = 5_000_000;
 
+/// Where sources with stored-byte faults are read from (a private, mutated copy of the corpus)
+pub static TREE_ROOT: std::sync::OnceLock<PathBuf> = std::sync::OnceLock::new();
+
 #[derive(Clone, Debug, Default, Serialize, Deserialize, PartialEq)]
 pub struct Outcome {
     /// ok | err | panic | deadlock | steps-exhausted | signal | cpu-exhausted | crashed | harness
@@ -55,8 +58,11 @@ pub struct ExecRecord {
     pub entropy_calls: u64,
     pub sim_clock_ns: u64,
     pub storage: Vec<sim::StorageOp>,
-    pub readbacks: Vec<(String, Option<bool>)>,
+    pub readbacks: Vec<(String, Option<bool>, String)>,
     pub getters: BTreeMap<String, u64>,
+    /// items whose value may be dropped from memory after persisting without anyone noticing,
+    /// if persistence is faithful: written, read only through get(), never scanned
+    pub evictable: Vec<String>,
     pub deviations: Vec<(usize, usize)>,
     pub panics: Vec<String>,
     pub out_path: String,
@@ -135,10 +141,14 @@ pub fn layout(plan: &Plan, sandbox: &Path) -> Layout {
     } else {
         sandbox.join("out").join("font.ttf")
     };
-    let source = if let Some(rel) = plan.source.strip_prefix("sandbox:") {
+    let source = if plan.source.starts_with("gen:") {
+        sandbox.join("gen").join("Gen.designspace")
+    } else if let Some(rel) = plan.source.strip_prefix("sandbox:") {
         sandbox.join("src").join(rel)
     } else if plan.source.starts_with('/') {
         PathBuf::from(&plan.source)
+    } else if plan.faults.iter().any(|f| f.kind.starts_with("src-")) {
+        TREE_ROOT.get().expect("a private tree for stored-byte faults").join(&plan.source)
     } else {
         Path::new(TESTDATA).join(&plan.source)
     };
@@ -330,6 +340,14 @@ pub fn execute(plan: &Plan, sandbox: &Path, verbose: bool) -> ExecRecord {
         storage: state.storage.clone(),
         readbacks: state.readbacks.clone(),
         getters: state.getters.clone(),
+        evictable: state
+            .written_items
+            .iter()
+            .filter(|i| state.get_reads.contains(*i) && !state.bare_reads.contains(*i))
+            .filter(|i| !state.scanned_tys.iter().any(|ty| i.starts_with(&format!("{ty}:"))))
+            .filter(|i| !i.contains("ExtraFeaTables"))
+            .cloned()
+            .collect(),
         deviations: state.deviations.clone(),
         panics: PANICS.lock().unwrap().clone(),
         out_path: lay.out_file.to_string_lossy().to_string(),
